@@ -190,8 +190,50 @@ def run(ctx):
                 cases.append({"s": ph, "langs": ["en"], "settings": st, "stratum": "relative-calendar" + ("/across-dst" if wrong else ""), "wrong_by_dst": wrong,
                               "expect": expect_str(x.replace(tzinfo=None), off=str(int(x.utcoffset().total_seconds())) if aware else "naive", period=per)})
 
+    # relative phrases in clock units are elapsed time: 'in 24 hours' is 24 hours later as an instant, whatever the zone's offset does meanwhile
+    # (and so are 23 and 25 hours: the three are one hour apart)
+    for A, w in [("Europe/Paris", D(2020, 3, 28, 12, 0)), ("Europe/Paris", D(2020, 10, 24, 22, 30)), ("America/New_York", D(2021, 3, 13, 9, 0)),
+                 ("America/New_York", D(2021, 11, 6, 23, 15)), ("Australia/Lord_Howe", D(2022, 4, 2, 8, 15)), ("Europe/Paris", D(2020, 6, 10, 9, 0))]:
+        for ph, secs in [("in 24 hours", 86400), ("in 23 hours", 82800), ("in 25 hours", 90000), ("in 48 hours", 172800), ("in 36 hours", 129600),
+                         ("24 hours ago", -86400), ("48 hours ago", -172800), ("in 1440 minutes", 86400), ("86400 seconds ago", -86400), ("in 3 hours", 10800),
+                         ("in 1 day 2 hours", None)]:
+            for B, aware in ((None, True), ("UTC", False), (None, False)):
+                now_a = localize(tz_of(A), w)
+                if secs is None:   # calendar part on the wall clock, then the clock part as elapsed time
+                    try:
+                        x0 = tz_of(A).normalize(localize(tz_of(A), w + dt.timedelta(days=1)) + dt.timedelta(hours=2))
+                    except Exception:  # noqa
+                        continue
+                else:
+                    x0 = tz_of(A).normalize(now_a + dt.timedelta(seconds=secs))
+                x = x0.astimezone(tz_of(B)) if B else x0
+                st = {"TIMEZONE": A, "RELATIVE_BASE": w, "RETURN_AS_TIMEZONE_AWARE": aware}
+                if B:
+                    st["TO_TIMEZONE"] = B
+                cases.append({"s": ph, "langs": ["en"], "settings": st, "stratum": "relative-clock" + ("/across-dst" if now_a.utcoffset() != x0.utcoffset() else ""),
+                              "expect": expect_str(x.replace(tzinfo=None), off=str(int(x.utcoffset().total_seconds())) if aware else "naive", period="day")})
+
+    # every library abbreviation as TIMEZONE: the string is interpreted at the offset the library's table lists for it (C11's offset), in
+    # summer and in winter alike
+    for nm in sorted(abbr):
+        if tier == "quick" and nm not in ("CET", "EET", "MET", "WET", "EST", "MST", "HST", "GMT") and R.random() < 0.8:
+            continue
+        for w in (D(2020, 7, 1, 12, 0), D(2020, 1, 15, 9, 30)):
+            x = w.replace(tzinfo=dt.timezone(dt.timedelta(seconds=abbr[nm]))).astimezone(dt.timezone.utc)
+            wrong = None
+            try:
+                y = pytz.timezone(nm).localize(w).astimezone(dt.timezone.utc)
+                if y != x:
+                    wrong = expect_str(y.replace(tzinfo=None), off="0")
+            except Exception:  # noqa
+                pass
+            cases.append({"s": w.strftime("%Y-%m-%d %H:%M"), "langs": ["en"], "settings": {"TIMEZONE": nm, "TO_TIMEZONE": "UTC", "RETURN_AS_TIMEZONE_AWARE": True, "RELATIVE_BASE": D(2020, 5, 17, 12, 0)},
+                          "stratum": "abbreviation-as-TIMEZONE", "wrong_as_tzdb": wrong, "expect": expect_str(x.replace(tzinfo=None), off="0")})
+
     def known_key(c, got):
         from props.base import strip_locale
+        if c.get("wrong_as_tzdb") and got is not None and strip_locale(got) == c["wrong_as_tzdb"]:
+            return {"rule": "TIMEZONE names both a library abbreviation and a tz-database zone that has DST", "name": c["settings"]["TIMEZONE"]}
         if c.get("wrong_by_dst") and got is not None and strip_locale(got) == c["wrong_by_dst"]:
             return {"rule": "relative-calendar-units-across-dst"}
         return None
